@@ -23,11 +23,19 @@ use std::future::Future;
 use std::io;
 use std::net::{IpAddr, SocketAddr};
 use std::sync::Arc;
+#[cfg(not(quandary_verif))]
 use std::time::{Duration, Instant};
+#[cfg(quandary_verif)]
+use std::time::Duration;
+#[cfg(quandary_verif)]
+use crate::verif::time::Instant;
 
 use log::error;
 use tokio::io::{AsyncReadExt, AsyncWriteExt};
+#[cfg(not(quandary_verif))]
 use tokio::net::{TcpListener, TcpStream};
+#[cfg(quandary_verif)]
+use crate::verif::tokio_net::{TcpListener, TcpStream};
 use tokio::sync::{broadcast, mpsc};
 use tokio::time::timeout;
 
